@@ -66,6 +66,11 @@ def cases(tier, seed, shard, nshards):
         text, truth = grammar.document(r, opts)
         if i % 3 == 0:
             text = with_refs(r, text, truth)
+        if i % 13 == 0:
+            # free text that reads like what the writer itself emits (seed C05-m: trailing "parsing failed" warning lines of
+            # an implicit comment were dropped on writing): the leftovers of an earlier write/repair cycle are content
+            w = "%% WARNING Parsing failed for the following %d lines." % r.choice([1, 2, 3, 10])
+            text = r.choice([w + "\n" + text, text.rstrip() + "\n" + w + "\n", "some text\n" + w + "\n" + text, w + "\n" + w + "\n" + text, text.rstrip() + "\n\n" + w])
         yield {"text": text, "fmt": list(FORMATS[r.randrange(len(FORMATS))])}
 
 
